@@ -9,9 +9,9 @@ import (
 // C07-S: one step from an arbitrary valid state never faults and makes progress.
 func VH_C07_Step() {
 	vunwindCut(vparam("U", 8))
-	th, _, ok := vstepThread(vStepOpts{depth: vparam("D", 3), k: vparam("K", 2), adepth: vparam("A", 1), cdepth: vparam("C", 0), withTx: vparam("TX", 0) == 1})
+	th, _, ok := vstepThread(vStepOpts{depth: vparam("D", 3), k: vparam("K", 2), adepth: vparam("A", 1), cdepth: vparam("C", 0), withTx: vparam("TX", 0) == 1,
+		bigTop: vparam("BIGTOP", 0), inUnlock: vparam("UNLOCK", 0) == 1})
 	if !ok {
-		vreach("rejected-at-entry")
 		return
 	}
 	idx0, off0 := th.scriptIdx, th.scriptOff
@@ -20,6 +20,10 @@ func VH_C07_Step() {
 		vassert(th.scriptIdx > idx0 || (th.scriptIdx == idx0 && th.scriptOff > off0), "step makes progress")
 	}
 	vassert(th.scriptIdx <= len(th.scripts) && len(th.scripts) <= 3, "script index stays in range")
+	if th.scriptIdx < len(th.scripts) {
+		// state invariant needed by subScript(): the code-separator position lies inside the current script
+		vassert(th.lastCodeSep == 0 || th.lastCodeSep < len(th.scripts[th.scriptIdx]), "code-separator position stays inside the current script")
+	}
 	if err == nil {
 		vreach("step-ok")
 	} else {
